@@ -1,5 +1,10 @@
 // num_h.cpp — correspondence harness for typed extraction (as<T>/is<T>) and comparison operators.
+#ifndef VERIF_INVENTORY_BUILD
+#include <Arduino.h>   // (the inventory of static objects is taken without the test mock of PROGMEM, whose macro defines writable pointers)
+#define ARDUINOJSON_ENABLE_PROGMEM 1
+#endif
 #include "common.hpp"
+#include <string_view>
 #include <deque>
 
 template <class T> static std::string showInt(JsonVariantConst v) {
@@ -197,7 +202,14 @@ static std::string handle(const std::vector<std::string>& a) {
           if (str.find('\0') == std::string::npos) {
             std::string s2 = bits12s(va, str.c_str());
             if (s2 != s) r += " CSTR-DIFFERS:" + s2;
+#if ARDUINOJSON_ENABLE_PROGMEM
+            std::string s3 = bits12s(va, reinterpret_cast<const __FlashStringHelper*>(convertPtrToFlash(str.c_str())));
+            if (s3 != s) r += " FLASH-DIFFERS:" + s3;
+#endif
           }
+          { std::string s4 = bits12s(va, std::string_view(str));      // sized kinds carry an embedded NUL
+            std::string s5 = bits12s(va, JsonString(str.c_str(), str.size()));
+            if (s4 != s) r += " STRINGVIEW-DIFFERS:" + s4; else if (s5 != s) r += " JSONSTRING-DIFFERS:" + s5; }
           break;
         }
         default: break;
